@@ -302,6 +302,14 @@ class SeriesVal:
     def dropna(self):
         return self.derive(sel=lambda i: z3.And(self._sel(i), z3.Not(self.null(i))), null=lambda i: z3.BoolVal(False))
 
+    def pyvc_setitem(self, I, k, v):
+        """series[label] = value: an in-place write of one element (the series stays a series)"""
+        self.mutations.append(("setitem", k))
+        self.element_writes = getattr(self, "element_writes", []) + [(k, v)]
+        for o in (self, getattr(self, "buffer_root", None)):
+            if o is not None:
+                cur().event("data_write", o, "setitem")
+
     def fillna(self, value, inplace=False, **kw):
         if inplace is True:
             # in-place fill: a write to this object's buffers - and to every object that shares them (shallow copies / the original)
@@ -502,6 +510,10 @@ class _Loc:
             mask, cols = k
             sub = self.s.pyvc_getitem(I, mask)
             return sub.pyvc_getitem(I, cols) if cols is not None else sub
+        if isinstance(k, IndexVal) and getattr(k.owner, "space", None) is self.s.space:
+            # obj.loc[other.index] where `other` is a view of the same rows: the rows of `other` (labels unique: the C11 quantifier)
+            o = k.owner
+            return self.s.derive(sel=lambda i: z3.And(self.s._sel(i), o._sel(i)))
         if isinstance(k, LabelSel):
             # obj.loc[labels]: LABEL based - every row whose label is one of the requested labels (pandas returns all rows carrying a
             # requested label, once per request; as a SET of rows this is the axiom below - multiplicities are not modelled)
